@@ -19,6 +19,10 @@ _g = _world.make('C07', TAGS, CLAUSES, [
     dict(n_comp=(1, 2), n_proc=(2, 6), handlers=0.3, traits=0.8, decoy=0.6, w=_W),
     # processors whose on_add / on_remove / process raises half-way through an operation
     dict(n_comp=(0, 1), n_proc=(2, 6), handlers=0.9, raises=0.9, w={**_W, 'rmproc': 5, 'create': 0.5, 'add': 0.5}),
+    # processors and components that call back into the same world (a processor removing itself mid-frame,
+    # an on_remove handler of a swept entity removing or replacing a processor, ...)
+    dict(n_comp=(1, 3), n_proc=(2, 5), handlers=0.9, reenter=0.95,
+         w={**_W, 'create': 3, 'add': 3, 'delete': 3, 'remove': 1, 'process': 7}),
 ])
 generate, project, oracle, _nt, stats = _g
 
